@@ -4,6 +4,7 @@ use std::collections::{BTreeMap, HashSet};
 pub mod docs;
 pub mod hist;
 pub mod links;
+pub mod positions;
 pub mod sched;
 pub mod reqs;
 
@@ -14,6 +15,7 @@ pub fn get(id: &str) -> Option<Box<dyn Engine>> {
         "C03" => Some(Box::new(docs::C03)),
         "C12" => Some(Box::new(reqs::C12)),
         "C11" => Some(Box::new(sched::C11)),
+        "C13" => Some(Box::new(positions::C13)),
         "C05" => Some(Box::new(links::C05)),
         "C06" => Some(Box::new(links::C06)),
         "C04" => Some(Box::new(hist::C04)),
